@@ -16,146 +16,153 @@ import ast
 from fractions import Fraction
 
 from ..engine.cfg import CFG
+from ..engine.normalize import inline_helpers, positional
 from ..engine.report import AnalysisError, Run
 from ..engine.resolver import Program, body_walk
+from ..engine.sympath import sym_block, sym_paths
 from ..engine.terms import Poly, TermEval
-from ..engine.util import canon, find_calls, method_call, node_calls, node_writes, nodes_with_call, u
+from ..engine.util import method_call, node_writes, nodes_with_call, u
 
 MOD = "timeseries._resampling"
 RES = f"{MOD}:Resampler"
 
 
-def check_align(run: Run, prog: Program) -> None:
+PER = "self._config.resampling_period"
+AL = "self._config.align_to"
+CWE = "self._calculate_window_end()"
+
+
+def _is_zero_td(e: ast.AST) -> bool:
+    return isinstance(e, ast.Call) and u(e.func) == "timedelta" and (
+        (not e.args and not e.keywords) or (len(e.args) == 1 and not e.keywords and u(e.args[0]) in ("0", "0.0")))
+
+
+def check_align(run: Run, prog: Program) -> None:  # noqa: C901
     fn = prog.func(f"{RES}._calculate_window_end")
     run.analysed(fn.qual)
-    cfg = CFG(fn.node, fn.file)
-    # local single definitions
-    defs = {}
-    for s in body_walk(fn.node):
-        if isinstance(s, ast.Assign) and isinstance(s.targets[0], ast.Name):
-            defs[s.targets[0].id] = s.value
-    need = {"now", "period", "align_to", "elapsed"}
-    roles = {}
-    for name, val in defs.items():
-        t = u(val).replace(" ", "")
-        if t.startswith("datetime.now("):
-            roles["now"] = name
-        elif t == "self._config.resampling_period":
-            roles["period"] = name
-        elif t == "self._config.align_to":
-            roles["align_to"] = name
-    for name, val in defs.items():
-        if isinstance(val, ast.BinOp) and isinstance(val.op, ast.Mod) and all(k in roles for k in ("now", "period", "align_to")):
-            te0 = TermEval()
-            if te0.ev(val.left) == Poly.atom(roles["now"]) - Poly.atom(roles["align_to"]) \
-                    and u(val.right) == roles["period"]:
-                roles["elapsed"] = name
-    if set(roles) != need:
-        raise AnalysisError(f"{fn.qual}: could not bind the roles {sorted(need - set(roles))} "
-                            "(now / period / align_to / elapsed = (now - align_to) % period)")
-    now, per, al, el = (Poly.atom(roles[k]) for k in ("now", "period", "align_to", "elapsed"))
+    paths = sym_paths(inline_helpers(prog, fn))
+    rets = [p for p in paths if p.exit == "return"]
+    if len(rets) < 2:
+        raise AnalysisError(f"{fn.qual}: expected several return paths, found {len(rets)}")
+    for p in paths:
+        where = dict(node=fn.node, file=fn.file, path=p.describe())
+        val = p.ret
+        if p.exit != "return" or not (isinstance(val, ast.Tuple) and len(val.elts) == 2):
+            run.violation("C07.ALIGN", fn.qual, f"{p.exit} {u(val)[:80]}",
+                          "this path does not return (window_end, start_delay)", **where)
+            continue
+        clocks = [k for k, n in p.fresh.items() for _ in range(n)]
+        if len(clocks) != 1 or not clocks[0].endswith("datetime.now"):
+            run.violation("C07.ALIGN", fn.qual, "one reading of the clock",
+                          f"the clock is read {len(clocks)} times on this path: window end and start delay "
+                          "are not computed from the same instant", **where)
+            continue
+        NOW = f"<{clocks[0]}#1>"
+        te0 = TermEval()
 
-    def hook(e: ast.AST, te: TermEval) -> Poly | None:
-        if isinstance(e, ast.Call) and u(e.func) == "timedelta" and (
-                not e.args and not e.keywords or (len(e.args) == 1 and u(e.args[0]) in ("0", "0.0"))):
-            return Poly()
-        return None
+        def is_elapsed(e: ast.AST) -> bool:
+            return isinstance(e, ast.BinOp) and isinstance(e.op, ast.Mod) and u(e.right) == PER \
+                and te0.ev(e.left) == Poly.atom(NOW) - Poly.atom(AL)
 
-    te = TermEval(atom_hook=hook)
-    rets = [n for n in cfg.nodes if isinstance(n.ast, ast.Return)]
-    if len(rets) < 3:
-        raise AnalysisError(f"{fn.qual}: expected 3 return paths, found {len(rets)}")
-    for r in rets:
-        val = r.ast.value  # type: ignore[union-attr]
-        if not (isinstance(val, ast.Tuple) and len(val.elts) == 2):
-            raise AnalysisError(f"{fn.qual}: return value is not (window_end, start_delay)")
-        # path facts: which tests dominate this return, on which side
+        def hook(e: ast.AST, te: TermEval) -> Poly | None:
+            if _is_zero_td(e):
+                return Poly()
+            if is_elapsed(e):
+                return Poly.atom("elapsed")
+            return None
+
+        te = TermEval(atom_hook=hook)
+        now, per, al, el = (Poly.atom(x) for x in (NOW, PER, AL, "elapsed"))
+        facts_no_align = p.outcome(("is", frozenset({AL, "None"}))) is True
         facts_zero_elapsed = False
-        facts_no_align = False
-        path = cfg.path(cfg.entry, [r.id])
-        assert path is not None
-        for (nid, _), (nxt, lab) in zip(path, path[1:]):
-            n = cfg.nodes[nid]
-            if n.kind == "test" and n.ast is not None:
-                c = canon(n.ast)
-                if c == ("is", frozenset({roles["align_to"], "None"})) and lab == "true":
-                    facts_no_align = True
-                if (c == ("not", ("truthy", roles["elapsed"])) and lab == "true") or (
-                        c == ("truthy", roles["elapsed"]) and lab == "false") or (
-                        c in (("==", frozenset({roles["elapsed"], "timedelta(0)"})),
-                              ("==", frozenset({roles["elapsed"], "timedelta()"}))) and lab == "true"):
-                    facts_zero_elapsed = True
-        W = te.ev(val.elts[0])
-        D = te.ev(val.elts[1]) if not isinstance(val.elts[1], ast.IfExp) else None
-        if D is None:
-            # `period - elapsed if elapsed else timedelta(0)` on the non-zero path: take the branch
-            ife = val.elts[1]
-            if u(ife.test) == roles["elapsed"]:  # type: ignore[union-attr]
-                D = te.ev(ife.orelse if facts_zero_elapsed else ife.body)  # type: ignore[union-attr]
-            else:
-                raise AnalysisError(f"{fn.qual}: start-delay expression not recognised: {u(ife)}")
+        for _key, _ko, test, _ln, raw in p.conds:
+            if is_elapsed(test):
+                facts_zero_elapsed = facts_zero_elapsed or raw is False
+            elif isinstance(test, ast.Compare) and len(test.ops) == 1:
+                l, op, r = test.left, test.ops[0], test.comparators[0]
+                if is_elapsed(r) and _is_zero_td(l):
+                    l, r = r, l
+                    op = {ast.Lt: ast.Gt, ast.Gt: ast.Lt, ast.LtE: ast.GtE, ast.GtE: ast.LtE}.get(type(op), type(op))()
+                if is_elapsed(l) and _is_zero_td(r):
+                    # elapsed = x % period >= 0, so `elapsed <= 0`, `elapsed == 0`, `not elapsed > 0` all say zero
+                    if isinstance(op, (ast.Eq, ast.LtE)) and raw:
+                        facts_zero_elapsed = True
+                    if isinstance(op, (ast.NotEq, ast.Gt)) and not raw:
+                        facts_zero_elapsed = True
+        W, D = te.ev(val.elts[0]), te.ev(val.elts[1])
         if facts_zero_elapsed:
-            W = _subst_zero(W, roles["elapsed"])
-            D = _subst_zero(D, roles["elapsed"])
-        inst = f"{fn.qual}: return path `{r.text(60)}`"
+            W, D = _subst_zero(W, "elapsed"), _subst_zero(D, "elapsed")
+        inst = f"{fn.qual}: return path [{'; '.join(d.split(': ', 1)[1] for d in p.describe()[:-1])}]"
         # interval: window_end - now = a*period + b*elapsed with 0 < elapsed < period
         diff = W - now
-        a = diff.coeff_of(roles["period"])
-        b = diff.coeff_of(roles["elapsed"])
-        rest = diff - per.scale(a) - el.scale(b)
-        lo, hi = a + min(Fraction(0), b), a + max(Fraction(0), b)
-        ok_int = rest.is_zero() and lo >= 0 and hi <= 2 and (a + b > 0 or (a > 0 and b >= 0) or lo > 0 or b > 0)
-        if b == 0:
-            ok_int = rest.is_zero() and 0 < a <= 2
-        run.check(ok_int, "C07.ALIGN", fn.qual, r.ast,
+        a_ = diff.coeff_of(PER)
+        b_ = diff.coeff_of("elapsed")
+        rest = diff - per.scale(a_) - el.scale(b_)
+        lo, hi = a_ + min(Fraction(0), b_), a_ + max(Fraction(0), b_)
+        ok_int = rest.is_zero() and lo >= 0 and hi <= 2 and (a_ + b_ > 0 or (a_ > 0 and b_ >= 0) or lo > 0 or b_ > 0)
+        if b_ == 0:
+            ok_int = rest.is_zero() and 0 < a_ <= 2
+        run.check(ok_int, "C07.ALIGN", fn.qual, f"return {u(val)[:100]}",
                   f"first window end is `now + {diff!r}`: not within (now, now + 2 periods]",
-                  node=r.ast, file=fn.file, instance=inst + " within (now, now+2p]")
+                  instance=inst + " within (now, now+2p]", **where)
         # timer consistency: first tick at now + period + delay must be the window end
-        run.check((W - now - per - D).is_zero(), "C07.ALIGN", fn.qual, r.ast,
+        run.check((W - now - per - D).is_zero(), "C07.ALIGN", fn.qual, f"return {u(val)[:100]}",
                   f"the timer's first tick (now + period + {D!r}) does not coincide with the first "
                   f"window end (now + {diff!r}): the tick times and the emitted timestamps drift apart",
-                  node=r.ast, file=fn.file, instance=inst + " tick == window end")
+                  instance=inst + " tick == window end", **where)
         if facts_no_align:
             run.ok("C07.ALIGN", inst + " (align_to is None: nothing to align to)")
             continue
         # alignment: W - align_to ≡ 0 (mod period) given now - align_to - elapsed ≡ 0
         P = W - al
-        k = P.coeff_of(roles["now"])
+        k = P.coeff_of(NOW)
         base = now - al - (Poly() if facts_zero_elapsed else el)
         R = P - base.scale(k)
-        pc = R.coeff_of(roles["period"])
+        pc = R.coeff_of(PER)
         left = R - per.scale(pc)
         ok = k.denominator == 1 and pc.denominator == 1 and left.is_zero()
-        run.check(ok, "C07.ALIGN", fn.qual, r.ast,
+        run.check(ok, "C07.ALIGN", fn.qual, f"return {u(val)[:100]}",
                   f"window_end - align_to = {P!r} is not a whole number of periods on this path "
                   f"(residual `{left!r}` after using elapsed ≡ (now - align_to) mod period"
                   + (" and elapsed = 0" if facts_zero_elapsed else "")
                   + "): every timestamp of every series is then off the align_to + k*period grid",
-                  node=r.ast, file=fn.file, instance=inst + " aligned")
+                  instance=inst + " aligned", **where)
     # constructor: both results are used as computed
     init = prog.func(f"{RES}.__init__")
     run.analysed(init.qual)
-    txt = u(init.node).replace(" ", "")
-    ok = "window_end,start_delay_time=self._calculate_window_end()" in txt and \
-        "self._window_end:datetime=window_end" in txt
-    run.check(ok, "C07.ALIGN", init.qual, "self._window_end = first result of _calculate_window_end()",
-              "the initial window end is not the computed aligned one", node=init.node, file=init.file)
-    tick = [s for s in body_walk(init.node) if isinstance(s, ast.Assign) and u(s.targets[0]) == "self._timer._next_tick_time"]
-    ok = False
-    if len(tick) == 1 and isinstance(tick[0].value, ast.Call) and u(tick[0].value.func) == "_to_microseconds":
-        p = TermEval().ev(tick[0].value.args[0])
-        want = Poly.atom("timedelta(seconds=asyncio.get_running_loop().time())") + \
-            Poly.atom("config.resampling_period") + Poly.atom("start_delay_time")
-        ok = p == want
-    run.check(ok, "C07.ALIGN", init.qual, "_next_tick_time = loop.time() + period + start_delay",
-              "the timer's first tick is not loop-now + one period + the computed start delay",
-              node=init.node, file=init.file)
-    timers = find_calls(init.node, lambda c: u(c.func) == "Timer")
-    ok = len(timers) == 1 and [u(a) for a in timers[0].args] == ["config.resampling_period", "TriggerAllMissed()"]
-    run.check(ok, "C07.STEP", init.qual, "Timer(config.resampling_period, TriggerAllMissed())",
-              "the resampling timer does not fire once per period for every missed tick: late ticks "
-              "would be skipped while _window_end advances one period per tick", node=init.node,
-              file=init.file)
+    cfgname = init.params[1]
+    periods = (PER, f"{cfgname}.resampling_period")
+    for p in sym_paths(inline_helpers(prog, init)):
+        if p.exit == "raise":
+            continue
+        where = dict(node=init.node, file=init.file, path=p.describe())
+        wr = {u(e.node.elts[0]): e.node.elts[1] for e in p.effects if e.kind == "write"}  # type: ignore[attr-defined]
+        ncalls = len(p.calls(lambda c: u(c) == CWE))
+        ok = ncalls == 1 and u(wr.get("self._window_end")) == f"{CWE}[0]" and u(wr.get("self._config")) == cfgname
+        run.check(ok, "C07.ALIGN", init.qual, "self._window_end = first result of _calculate_window_end()",
+                  "the initial window end is not the computed aligned one", **where)
+        tick = wr.get("self._timer._next_tick_time")
+        ok = isinstance(tick, ast.Call) and u(tick.func) == "_to_microseconds" and len(tick.args) == 1 and not tick.keywords
+        if ok:
+            x = TermEval().ev(tick.args[0])  # type: ignore[union-attr]
+            ok = False
+            for per_t in periods:
+                rest = x - Poly.atom(per_t) - Poly.atom(f"{CWE}[1]")
+                at = rest.as_atom()
+                if at is not None and at.startswith("timedelta(seconds=<") and at.endswith(".time#1>)") \
+                        and rest.coeff_of(at) == 1:
+                    ok = True
+        run.check(ok, "C07.ALIGN", init.qual, "_next_tick_time = loop.time() + period + start_delay",
+                  "the timer's first tick is not loop-now + one period + the computed start delay", **where)
+        timers = p.calls(lambda c: u(c.func) == "Timer")
+        ok = len(timers) == 1 and u(wr.get("self._timer")) == u(timers[0].node)
+        if ok:
+            ta = positional(timers[0].node, ["interval", "missed_tick_policy"])  # type: ignore[arg-type]
+            ok = u(ta.get("interval")) in periods and u(ta.get("missed_tick_policy")) == "TriggerAllMissed()" \
+                and set(ta) <= {"interval", "missed_tick_policy"}
+        run.check(ok, "C07.STEP", init.qual, "Timer(config.resampling_period, TriggerAllMissed())",
+                  "the resampling timer does not fire once per period for every missed tick: late ticks "
+                  "would be skipped while _window_end advances one period per tick", **where)
 
 
 def _subst_zero(p: Poly, atom: str) -> Poly:
@@ -226,46 +233,91 @@ def check_step(run: Run, prog: Program) -> None:
               "the window end is advanced before the series are resampled with it", node=inc.ast, file=fn.file)
 
 
+def _gather_ok(g: ast.Call) -> bool:
+    if not (g.args and isinstance(g.args[0], ast.Starred) and isinstance(g.args[0].value, (ast.ListComp, ast.GeneratorExp))):
+        return False
+    comp = g.args[0].value
+    if len(comp.generators) != 1 or comp.generators[0].ifs or comp.generators[0].is_async:
+        return False
+    gen = comp.generators[0]
+    if u(gen.iter) == "self._resamplers.values()" and isinstance(gen.target, ast.Name):
+        recv = gen.target.id
+    elif u(gen.iter) == "self._resamplers.items()" and isinstance(gen.target, ast.Tuple) and len(gen.target.elts) == 2 \
+            and isinstance(gen.target.elts[1], ast.Name):
+        recv = gen.target.elts[1].id
+    else:
+        return False
+    return isinstance(comp.elt, ast.Call) and method_call(comp.elt, recv, "resample") \
+        and u(positional(comp.elt, ["timestamp"]).get("timestamp")) == "self._window_end" \
+        and len(comp.elt.args) + len(comp.elt.keywords) == 1
+
+
 def check_same(run: Run, prog: Program) -> None:
     fn = prog.func(f"{RES}.resample")
-    g = find_calls(fn.node, lambda c: u(c.func) == "asyncio.gather")
-    ok = False
-    if len(g) == 1 and g[0].args and isinstance(g[0].args[0], ast.Starred) and isinstance(
-            g[0].args[0].value, (ast.ListComp, ast.GeneratorExp)):
-        comp = g[0].args[0].value
-        gen = comp.generators[0]
-        ok = len(comp.generators) == 1 and not gen.ifs and u(gen.iter) == "self._resamplers.values()" \
-            and isinstance(comp.elt, ast.Call) and method_call(comp.elt, u(gen.target), "resample") \
-            and [u(a) for a in comp.elt.args] == ["self._window_end"]
-    run.check(ok, "C07.SAME", fn.qual, g[0] if g else "gather",
-              "not every registered series is resampled in the tick with the same self._window_end",
-              node=fn.node, file=fn.file)
+    node = inline_helpers(prog, fn)
+    loops = [s for s in body_walk(node) if isinstance(s, (ast.AsyncFor, ast.For)) and u(s.iter) == "self._timer"]
+    if len(loops) != 1:
+        raise AnalysisError(f"{fn.qual}: timer loop not found")
+    n = 0
+    for p, _st in sym_block(loops[0].body):
+        gs = p.calls(lambda c: u(c.func) == "asyncio.gather")
+        n += len(gs)
+        ok = len(gs) == 1 and _gather_ok(gs[0].node)  # type: ignore[arg-type]
+        run.check(ok, "C07.SAME", fn.qual, "gather(*[r.resample(self._window_end) for r in self._resamplers.values()])",
+                  "not every registered series is resampled in the tick with the same self._window_end",
+                  node=fn.node, file=fn.file, path=p.describe())
+    if not n:
+        raise AnalysisError(f"{fn.qual}: per-tick gather not found")
     sh = prog.func(f"{MOD}:_StreamingHelper.resample")
     run.analysed(sh.qual)
-    p = sh.params[1]
-    calls = find_calls(sh.node, lambda c: method_call(c, "self._helper", "resample"))
-    ok = len(calls) == 1 and [u(a) for a in calls[0].args] == [p]
-    sinks = find_calls(sh.node, lambda c: u(c.func) == "self._sink")
-    ok = ok and len(sinks) == 1 and sinks[0].args and sinks[0].args[0] is calls[0]
-    run.check(ok, "C07.SAME", sh.qual, "await self._sink(self._helper.resample(timestamp))",
-              "the tick's timestamp is not passed unchanged to the helper and its sample to the sink",
-              node=sh.node, file=sh.file)
+    T = sh.params[1]
+    n = 0
+    for p in sym_paths(inline_helpers(prog, sh)):
+        if p.exit == "raise":
+            continue
+        n += 1
+        calls = p.calls(lambda c: method_call(c, "self._helper", "resample"))
+        sinks = p.calls(lambda c: u(c.func) == "self._sink")
+        ok = len(calls) == 1 and u(positional(calls[0].node, ["timestamp"]).get("timestamp")) == T \
+            and len(calls[0].node.args) + len(calls[0].node.keywords) == 1  # type: ignore[attr-defined]
+        ok = ok and len(sinks) == 1 and [u(a) for a in sinks[0].node.args] == [u(calls[0].node)] \
+            and not sinks[0].node.keywords  # type: ignore[attr-defined]
+        run.check(ok, "C07.SAME", sh.qual, "await self._sink(self._helper.resample(timestamp))",
+                  "the tick's timestamp is not passed unchanged to the helper and its sample to the sink",
+                  node=sh.node, file=sh.file, path=p.describe())
+    if not n:
+        raise AnalysisError(f"{sh.qual}: no normal path")
     rh = prog.func(f"{MOD}:_ResamplingHelper.resample")
     run.analysed(rh.qual)
-    p = rh.params[1]
-    rebinds = [s for s in body_walk(rh.node) if isinstance(s, (ast.Assign, ast.AugAssign))
-               and any(u(t) == p for t in (s.targets if isinstance(s, ast.Assign) else [s.target]))]
-    rets = [n for n in body_walk(rh.node) if isinstance(n, ast.Return)]
-    ok = bool(rets) and not rebinds and all(
-        isinstance(r.value, ast.Call) and u(r.value.func) == "Sample" and u(r.value.args[0]) == p for r in rets)
-    run.check(ok, "C07.SAME", rh.qual, f"return Sample({p}, ...)",
-              "the emitted sample does not carry the tick's timestamp unchanged", node=rh.node, file=rh.file)
+    T = rh.params[1]
+    bad = None
+    for p in sym_paths(inline_helpers(prog, rh)):
+        r = p.ret
+        if not (p.exit == "return" and isinstance(r, ast.Call) and u(r.func) == "Sample"
+                and u(positional(r, ["timestamp", "value"]).get("timestamp")) == T):
+            bad = p
+    run.check(bad is None, "C07.SAME", rh.qual, f"return Sample({T}, ...)",
+              "the emitted sample does not carry the tick's timestamp unchanged", node=rh.node, file=rh.file,
+              path=bad.describe() if bad else None)
     at = prog.func(f"{RES}.add_timeseries")
     run.analysed(at.qual)
-    txt = u(at.node).replace(" ", "")
-    ok = "ifsourceinself._resamplers:returnFalse" in txt.replace("\n", "") and "self._resamplers[source]=resampler" in txt
-    run.check(ok, "C07.SAME", at.qual, "series registered once per source",
-              "a series can be registered twice / is not registered in the shared map", node=at.node, file=at.file)
+    src = at.params[2]
+    bad = None
+    for p in sym_paths(inline_helpers(prog, at)):
+        known = p.outcome(("in", src, "self._resamplers"))
+        writes = [e for e in p.effects if e.kind == "write" and u(e.node.elts[0]).startswith("self._resamplers")]  # type: ignore[attr-defined]
+        if known is True:
+            ok = not writes and p.exit == "return" and u(p.ret) == "False"
+        elif known is False:
+            ok = len(writes) == 1 and u(writes[0].node.elts[0]) == f"self._resamplers[{src}]" \
+                and isinstance(writes[0].node.elts[1], ast.Call) and u(writes[0].node.elts[1].func) == "_StreamingHelper"  # type: ignore[attr-defined]
+        else:
+            ok = False
+        if not ok:
+            bad = p
+    run.check(bad is None, "C07.SAME", at.qual, "series registered once per source",
+              "a series can be registered twice / is not registered in the shared map", node=at.node, file=at.file,
+              path=bad.describe() if bad else None)
 
 
 CONTROLS = [
